@@ -21,14 +21,10 @@ impl AnyBox {
         ensures r is Ok <==> self.val().tid == type_id::<T>(), r is Ok ==> r->Ok_0.any_val() == self.val()
     { unimplemented!() }
 }
-// Box::new(e) (rule T1): the result type is inferred from the expected type
-pub trait BoxNew<T>: Sized { spec fn boxed_ok(t: &T, r: &Self) -> bool; fn box_new_(t: T) -> (r: Self) ensures Self::boxed_ok(&t, &r); }
 impl<T: AnyValued> BoxNew<T> for AnyBox {
     open spec fn boxed_ok(t: &T, r: &Self) -> bool { r.val() == t.any_val() }
     #[verifier::external_body] fn box_new_(t: T) -> (r: Self) { unimplemented!() }
 }
-pub fn box_new<B: BoxNew<T>, T>(t: T) -> (r: B) ensures B::boxed_ok(&t, &r) { B::box_new_(t) }
-
 // the registry: `static REGISTRY: LazyLock<async_lock::RwLock<HashMap<TypeId, AnyBox>>>`
 // well-formedness: an entry under type_id::<A>() holds an Addr<A> (the only writers are the functions of this unit, which keep it)
 pub uninterp spec fn addr_tid_of(k: int) -> int;
